@@ -31,6 +31,7 @@ type Obligation struct {
 	Cover   bool // a cover obligation: must be SAT
 	Known   string
 	QueryNo int
+	RawQuery string // complete SMT-LIB text (string-theory lemmas); unsat = discharged
 }
 
 type Engine struct {
@@ -60,6 +61,8 @@ type Engine struct {
 	pathCount     map[string]int
 	coverDone     map[string]bool
 	subCtors      []string
+	seqCache      map[*SliceV]*Term
+	trusted       map[string]bool
 
 	MaxPaths      int
 	DefaultUnroll int
@@ -74,7 +77,7 @@ func NewEngine(w *World) *Engine {
 	e := &Engine{W: w, C: NewSMTCtx(), sentinels: map[string]bool{}, usedExterns: map[string]bool{}, usedWires: map[string]bool{},
 		usedSpecs: map[string]bool{}, inlined: map[string]bool{}, contractCalls: map[string]bool{}, noiseCalls: map[string]bool{},
 		havocked: map[string]bool{}, unrolled: map[string]bool{}, inlineOverride: map[string]bool{}, entryVals: map[*Frame][]Val{},
-		pathCount: map[string]int{}, coverDone: map[string]bool{}, MaxPaths: 4000, DefaultUnroll: 2, TimeoutS: 10}
+		pathCount: map[string]int{}, coverDone: map[string]bool{}, trusted: map[string]bool{}, MaxPaths: 4000, DefaultUnroll: 2, TimeoutS: 10}
 	e.C.DeclareSort("Obj")
 	for _, s := range w.Sorts {
 		e.C.DeclareSort(s)
@@ -100,6 +103,14 @@ func NewEngine(w *World) *Engine {
 	e.C.AddKeyCtor("clientRaw", []Sort{SStr, SStr})
 	e.subCtors = append(e.subCtors, "clientRaw")
 	e.C.AddKeyCtor("relayers", []Sort{SStr})
+	e.C.AddKeyCtor("prefixed", []Sort{SStr, SStr})
+	for _, kc := range w.KeyCtorDecls {
+		var sorts []Sort
+		for _, s := range kc.Sorts {
+			sorts = append(sorts, e.sortByName(s))
+		}
+		e.C.AddKeyCtor(kc.Name, sorts)
+	}
 	return e
 }
 
@@ -246,6 +257,12 @@ func (e *Engine) VerifyFunc(key string) {
 				penv.vars[ld.Name] = e.evalExpr(penv, ld.E)
 			}
 			for _, en := range fc.Ensures {
+				if en.Known == "trusted" {
+					e.mu.Lock()
+					e.trusted[name+"#"+en.Label+": "+en.Src] = true
+					e.mu.Unlock()
+					continue
+				}
 				g := e.evalBool(penv, en.E)
 				props := en.Props
 				if len(props) == 0 {
@@ -536,6 +553,23 @@ func (e *Engine) Discharge(par int) {
 		go func(o *Obligation) {
 			defer wg.Done()
 			defer func() { <-sem }()
+			if o.RawQuery != "" {
+				// a self-contained query (string-theory lemmas): unsat = discharged
+				r := Solve(e.TmpDir, fmt.Sprintf("raw%d_%s", o.QueryNo, o.Name), o.RawQuery, e.TimeoutS, e.Agree)
+				o.Solver, o.Secs = r.Solver, r.Secs
+				switch r.Status {
+				case "unsat":
+					o.Status = "discharged"
+				case "sat":
+					o.Status, o.Model = "failed", r.Model
+				case "disagree":
+					o.Status, o.Model = "failed", r.Model
+				default:
+					o.Status = "undischarged"
+					o.Model = fmt.Sprintf("no solver decided within %ds: %v", e.TimeoutS, r.Raw)
+				}
+				return
+			}
 			if o.Cover && o.Goal == "true" {
 				// reachability covers: one satisfiable path per group is enough
 				e.mu.Lock()
